@@ -1,6 +1,7 @@
 """C18 - streams are consumed incrementally (laziness-structure clauses)."""
 import sys
 
+from sa import crosslist as XL
 from sa import rules_r6b as R6B
 from sa import report, rules_order as RO, rules_state as RS
 from sa import rules_extra as RX
@@ -31,6 +32,8 @@ def run(ctx, repo):
     ctx.call(R6B.r_read_only_in_update_raw, repo)
     ctx.call(R6B.r_str_input_verbatim, repo)
     ctx.call(R6B.r_doc_end_lookahead, repo)
+    ctx.call(R6B.r_need_more_tokens_pure, repo)
+    XL.reader_positions(ctx, repo)
 
 
 if __name__ == '__main__':
